@@ -181,3 +181,75 @@ def target_positional():
 
 
 TARGETS["positional"] = target_positional
+
+
+def target_dispatch_and_physical_types():
+    """_type_check_expression: an expression that already has a type is left alone; otherwise exactly the checker of its
+    variety is called, once, with the expression (constant / constant_reference / function / field_reference /
+    boolean_constant / builtin_reference).
+    unbounded_expression_type_for_physical_type: [is_integer] types -> integer; the prelude's Flag -> boolean; an enum
+    definition -> enumeration NAMED BY THAT DEFINITION's canonical name (so two enums never share an expression type);
+    anything else -> opaque.  _annotate_parameter_type: array-typed parameter -> one error and no type; otherwise the type
+    of the referenced definition."""
+    tc = importlib.import_module(TC)
+    ir_data = importlib.import_module("compiler.util.ir_data")
+    ir_util = importlib.import_module("compiler.util.ir_util")
+    ir_data_utils = importlib.import_module("compiler.util.ir_data_utils")
+    attributes = importlib.import_module("compiler.front_end.attributes")
+    error = importlib.import_module("compiler.util.error")
+    eng = pyvc.Engine()
+    eng.identity(ir_data_utils.reader)
+    eng.identity(ir_data_utils.builder)
+    calls = []
+    for nm in ("_type_check_integer_constant", "_type_check_constant_reference", "_type_check_operation", "_type_check_local_reference", "_type_check_boolean_constant", "_type_check_builtin_reference"):
+        eng.contract(getattr(tc, nm), (lambda n: lambda interp, e, *a: calls.append((n, e)))(nm), nm)
+    eng.contract(error.error, lambda interp, f, loc, msg: ("ERROR", loc, msg), "error.error")
+    eng.contract(ir_data.ExpressionType, lambda interp, **kw: SRec("ExpressionType", dict(kw, which_type=list(kw)[0] if kw else None)), "ExpressionType")
+    eng.contract(ir_data.IntegerType, lambda interp, **kw: ("IntegerType",), "IntegerType")
+    eng.contract(ir_data.BooleanType, lambda interp, **kw: ("BooleanType",), "BooleanType")
+    eng.contract(ir_data.OpaqueType, lambda interp, **kw: ("OpaqueType",), "OpaqueType")
+    eng.contract(ir_data.EnumType, lambda interp, name=None: ("EnumType", name), "EnumType")
+    eng.contract(ir_data.Reference, lambda interp, canonical_name=None: ("Reference", canonical_name), "Reference")
+    VARIETY = {"constant": "_type_check_integer_constant", "constant_reference": "_type_check_constant_reference", "function": "_type_check_operation",
+               "field_reference": "_type_check_local_reference", "boolean_constant": "_type_check_boolean_constant", "builtin_reference": "_type_check_builtin_reference"}
+
+    def harness(c):
+        what = c.choice("function", ["dispatch", "physical-type", "parameter"])
+        c.covered = True
+        if what == "dispatch":
+            del calls[:]
+            variety = c.choice("variety", sorted(VARIETY))
+            typed = c.choice("already-typed", ["no", "yes"]) == "yes"
+            e = SRec("Expression", {"which_expression": variety, "type": SRec("ExpressionType", {"which_type": "integer" if typed else None})})
+            pyvc.run_body(c, TC + "._type_check_expression", [e, "m.emb", "IR", []])
+            c.oblige("dispatch:typed-expressions-are-left-alone-others-get-exactly-their-variety's-checker",
+                     calls == ([] if typed else [(VARIETY[variety], e)]) or (not typed and len(calls) == 1 and calls[0][0] == VARIETY[variety] and calls[0][1] is e), detail=repr([x[0] for x in calls]))
+            return
+        kind = c.choice("definition", ["is_integer", "Flag", "enum", "enum-named-Flag-in-a-struct", "struct"])
+        cn = SRec("CanonicalName", {"object_path": {"Flag": ["Flag"], "enum-named-Flag-in-a-struct": ["Outer", "Flag"]}.get(kind, ["Ee"])})
+        eng.contract(ir_util.get_boolean_attribute, lambda interp, attrs, name, default_value=None: (kind == "is_integer") if name == attributes.IS_INTEGER else None, "get_boolean_attribute")
+        td = SRec("TypeDefinition", {"attribute": [], "name": SRec("NameDefinition", {"canonical_name": cn})}, defaults={"has:enumeration": kind.startswith("enum")})
+        want = {"is_integer": "integer", "Flag": "boolean", "enum": "enumeration", "enum-named-Flag-in-a-struct": "enumeration", "struct": "opaque"}[kind]
+        if what == "physical-type":
+            st, got = pyvc.run_body(c, TC + ".unbounded_expression_type_for_physical_type", [td])
+            ok = isinstance(got, SRec) and got.f.get("which_type") == want
+            c.oblige("physical-type:expression-type-kind", ok, detail=repr(got.f if isinstance(got, SRec) else got)[:200])
+            if ok and want == "enumeration":
+                en = got.f["enumeration"]
+                c.oblige("physical-type:enum-type-is-named-by-the-definition-itself", en[0] == "EnumType" and en[1][0] == "Reference" and en[1][1] is cn, detail=repr(en)[:200])
+            return
+        arr = c.choice("parameter-type", ["atomic", "array"]) == "array"
+        eng.contract(ir_util.find_object, lambda interp, ref, ir: td, "find_object")
+        alias = SRec("Type", {"which_type": "array_type" if arr else "atomic_type", "source_location": ("LOC", "ptype"), "atomic_type": SRec("AtomicType", {"reference": SRec("Reference", {})})})
+        param = SRec("RuntimeParameter", {"physical_type_alias": alias}, defaults={"type": lambda rec: SRec("ExpressionType", {})})
+        errors = []
+        pyvc.run_body(c, TC + "._annotate_parameter_type", [param, "IR", "m.emb", errors])
+        if arr:
+            c.oblige("parameter:array-type-gives-one-error-and-no-type", len(errors) == 1 and errors[0][0][1] == ("LOC", "ptype") and "Parameters cannot be arrays" in errors[0][0][2] and "type" not in param.f, detail=repr(errors)[:200])
+        else:
+            c.oblige("parameter:gets-the-type-of-the-referenced-definition", errors == [] and "type" in param.f and param.f["type"].f.get("which_type") == want, detail=repr(param.f.get("type"))[:200])
+    paths = eng.explore(harness)
+    return pyvc.collect(paths, "type_check.dispatch+physical-types"), sum(1 for p in paths if p.covered)
+
+
+TARGETS["dispatch_and_physical_types"] = target_dispatch_and_physical_types
